@@ -312,6 +312,8 @@ class Tracer:
 
     def ev_LetStmt(self, n):
         v = self.ev(n["init"]) if n.get("init") else None
+        if n.get("init"):
+            self.emit("let", val=v, node=n)
         self.bind(n["pat"], v)
         if n.get("els"):
             self.ev(n["els"])
@@ -367,7 +369,7 @@ class Tracer:
             if op == "*":
                 return pl * pr
             if op in CMP_FLIP:
-                return Term(canon_cmp(op, pl, pr))
+                return Cmp(op, pl, pr)
         return Term("bin:" + op, (l, r))
 
     def ev_Assign(self, n):
@@ -534,18 +536,20 @@ class Tracer:
         if c["k"] == "Let":
             v = self.ev(c["init"])
             g = "let %s = %s" % (pat_name(self.c, c["pat"]), k(v))
-            self.guards.append(("+", g, n))
+            gv = v
+            self.guards.append(("+", g, n, v))
             self.bind(c["pat"], v)
             self.ev(n["then"])
             self.guards.pop()
         else:
             cv = self.ev(c)
             g = k(cv)
-            self.guards.append(("+", g, n))
+            gv = cv
+            self.guards.append(("+", g, n, cv))
             self.ev(n["then"])
             self.guards.pop()
         if n.get("else"):
-            self.guards.append(("-", g, n))
+            self.guards.append(("-", g, n, gv))
             self.ev(n["else"])
             self.guards.pop()
         return Term("<if@%d>" % self._fresh())
@@ -573,7 +577,7 @@ class Tracer:
         vals = []
         for a in n["arms"]:
             g = "%s ~ %s" % (k(sv), pat_name(self.c, a["pat"]))
-            self.guards.append(("+", g, n))
+            self.guards.append(("+", g, n, sv))
             self.bind(a["pat"], sv)
             if a.get("guard"):
                 self.ev(a["guard"])
@@ -651,6 +655,43 @@ def pat_name(c, p):
     if kk == "Bind":
         return "_"
     return kk
+
+
+class Cmp(Term):
+    """Canonical comparison `poly op 0` (poly = lhs - rhs, sign-normalised)."""
+    __slots__ = ("poly", "cop")
+
+    def __init__(self, op, pl, pr):
+        d = pl - pr
+        keys = [kk for kk in sorted(d.t) if kk != ()] or [()]
+        if d.t and d.t.get(keys[0], 0) < 0:
+            d = -d
+            op = CMP_FLIP[op]
+        Term.__init__(self, "cmp(%s %s 0)" % (d.key() if d.t else "0", op))
+        self.poly = d
+        self.cop = op
+
+    def asserts_less(self, a_pred, b_pred, allow_eq=True, strict_ok=True):
+        """True when this comparison states a < b (or a <= b): exactly two atoms, matched by the predicates."""
+        atoms = [(k[0], c) for k, c in self.poly.t.items() if len(k) == 1]
+        if len(atoms) != 2 or len(self.poly.t) != 2:
+            return None
+        (x, cx), (y, cy) = atoms
+        if cx * cy >= 0:
+            return None
+        pos, neg = (x, y) if cx > 0 else (y, x)
+        # poly = pos - neg ; "pos - neg < 0" means pos < neg
+        if self.cop in ("<", "<="):
+            lo, hi = pos, neg
+        elif self.cop in (">", ">="):
+            lo, hi = neg, pos
+        else:
+            return None
+        if a_pred(lo) and b_pred(hi):
+            return self.cop in ("<", ">") and "strict" or "weak"
+        if a_pred(hi) and b_pred(lo):
+            return "reversed"
+        return None
 
 
 def canon_cmp(op, pl, pr):
